@@ -131,3 +131,15 @@ package signing
 //@   requires [own-nonce-from-round-1] round.temp.ri != nil && val(round.temp.ri) >= 0 && round.temp.pointRi != nil && validPoint(round.temp.pointRi) && round.temp.pointRi.curve == round.Parameters.ec && len(round.temp.ssid) <= 4096 && (forall k in 0..len(round.temp.deCommit) :: round.temp.deCommit[k] != nil)
 //@   modifies *
 //@   loop 0 invariant round.started
+
+// prepare.go: Lagrange weight of the own share for the signer (or old-committee) set.
+// The explicit panics are excluded by the preconditions (caller configuration:
+// one key id per member, own index inside, ids pairwise distinct modulo the order).
+//@ func PrepareForSigning
+//@   deadpoints 3
+//@   props C06 C02 C04
+//@   requires okCurve(ec) && xi != nil && val(xi) >= 0
+//@   requires [one-id-per-member] len(ks) == pax && 0 <= i && i < len(ks) && (forall k in 0..len(ks) :: (ks[k] != nil && val(ks[k]) >= 0))
+//@   requires [ids-distinct-modulo-the-order] forall k in 0..len(ks) :: (k != i ==> (val(ks[k]) != val(ks[i]) && gcd(val(ks[k]) - val(ks[i]), curveN(ec)) == 1))
+//@   ensures wi != nil && val(wi) >= 0
+//@   loop 0 invariant 0 <= j && j <= pax && wi != nil && val(wi) >= 0 && modQ != nil && val(modQ) == curveN(ec)
